@@ -84,5 +84,11 @@ func init() {
 			return firstFlag(flagIf(!v.Disc, "discard"), flagIf(strings.HasPrefix(v.Shape, "unknown") && (!v.Fresh || !v.Merge || !v.Enc), "unknown"))
 		})
 		codecTraceRun(c, "unknown", 10, 120, func(v CodecVerdict) bool { return v.Ev == "unmarshal" || v.Ev == "marshal" })
+		// GetUnknown / SetUnknown read and replace exactly that set (reflection model, incl. a
+		// slice held across SetUnknown)
+		mcReflectCheck(c, func(v ReflVerdict) bool {
+			op, rd := opName(v.Op), opName(v.Read)
+			return strings.Contains(op, "Unknown") || strings.Contains(rd, "Unknown")
+		})
 	}})
 }
